@@ -377,4 +377,30 @@ theorem addHydrogens_ids : ∀ (l : List Nat) (nxt : Nat) (m : Mol),
       simp only [List.map_append, this, List.map_cons, List.map_nil, List.length_cons, List.range'_succ,
         List.append_assoc, List.singleton_append]
 
+/-- everything of an atom entry except the hydrogen mark and the stereo label -/
+def atomCore (p : Nat × Atom) : Nat × Nat × Option Nat × Int × Bool := (p.1, p.2.z, p.2.isotope, p.2.charge, p.2.radical)
+
+theorem core_setH (atoms : List (Nat × Atom)) (n : Nat) (h : Option Nat) :
+    (atoms.map (setHEntry n h)).map atomCore = atoms.map atomCore := by
+  rw [List.map_map]
+  apply List.map_congr_left
+  intro p _
+  simp only [Function.comp, setHEntry, atomCore]
+  split <;> rfl
+
+/-- the loop of `explicify_hydrogens` keeps every atom (number, element, isotope, charge, radical state, in order) and appends
+    plain neutral hydrogens -/
+theorem addHydrogens_core : ∀ (l : List Nat) (nxt : Nat) (m : Mol),
+    (addHydrogens l nxt m).atoms.map atomCore =
+      m.atoms.map atomCore ++ (List.range' nxt l.length).map fun i => (i, 1, none, 0, false) := by
+  intro l
+  induction l with
+  | nil => intro nxt m; simp [addHydrogens]
+  | cons n tl ih =>
+    intro nxt m
+    simp only [addHydrogens]
+    rw [ih]
+    simp only [List.map_append, core_setH, List.map_cons, List.map_nil, List.length_cons, List.range'_succ,
+      List.append_assoc, List.singleton_append, atomCore]
+
 end ChythonModel.Proofs.C04Standardize
